@@ -134,8 +134,11 @@ def parseGraph (j : Json) : Except String Graph := do
   let rmAlwaysDb := (jBoolField? j "rm_always_db").getD false
   let triggerUnpooled := (jBoolField? j "trig_unpooled").getD true
   let dbRowPerFlowSet := (jBoolField? j "db_row_per_flow_set").getD false
+  let rowInsertMode := (jNatField? j "row_insert_mode").getD 0
+  let qotSkipsPrepped := (jBoolField? j "qot_skips_prepped").getD false
+  let releaseQueueIfReady := (jBoolField? j "release_queue_if_ready").getD false
   return { icp, fcp, start, runahead, tasks, seqs, stopPoint, cfgStop, anyOutput, rmCommits, rmAlwaysDb,
-           triggerUnpooled, dbRowPerFlowSet }
+           triggerUnpooled, dbRowPerFlowSet, rowInsertMode, qotSkipsPrepped, releaseQueueIfReady }
 
 def parseTaskId (s : String) : Except String (Int × String) :=
   match s.splitOn "/" with
